@@ -26,18 +26,23 @@ HalfPi == "1.5707963267948966"
 
 \* What Expression::into_simplified makes of an expression, as far as equality of two
 \* simplified expressions is concerned: a closed expression becomes its value, an open one
-\* (containing a variable) stays open.  Literals of the alphabets are non-negative, so a
-\* negated closed value is kept symbolic (it equals no literal; -0 is excluded by the generators).
+\* (containing a variable) stays open.  Values are kept exact and canonical for the operators of
+\* the alphabets: an integer, or (+/-)r + k for a real literal r (by its text) and an integer k.
+\* (-0 = 0, -(-x) = x and (0+1) = 1 hold by construction; two different real literals of the
+\* alphabets never denote values an integer apart.)
 RECURSIVE Val(_)
 Val(e) == CASE e.t = "int"   -> [c |-> "int", n |-> e.n]
-            [] e.t = "real"  -> [c |-> "real", s |-> e.s]
-            [] e.t = "pi2"   -> [c |-> "real", s |-> HalfPi]
+            [] e.t = "real"  -> [c |-> "real", s |-> e.s, minus |-> FALSE, add |-> 0]
+            [] e.t = "pi2"   -> [c |-> "real", s |-> HalfPi, minus |-> FALSE, add |-> 0]
             [] e.t = "var"   -> [c |-> "open"]
             [] e.t = "plus1" -> LET v == Val(e.e) IN
-                                IF v.c = "int" THEN [c |-> "int", n |-> v.n + 1]
-                                ELSE IF v.c = "open" THEN [c |-> "open"] ELSE [c |-> "sum", v |-> v]
+                                CASE v.c = "int"  -> [v EXCEPT !.n = v.n + 1]
+                                  [] v.c = "real" -> [v EXCEPT !.add = v.add + 1]
+                                  [] OTHER        -> v
             [] e.t = "neg"   -> LET v == Val(e.e) IN
-                                IF v.c = "open" THEN [c |-> "open"] ELSE [c |-> "neg", v |-> v]
+                                CASE v.c = "int"  -> [v EXCEPT !.n = 0 - v.n]
+                                  [] v.c = "real" -> [v EXCEPT !.minus = ~v.minus, !.add = 0 - v.add]
+                                  [] OTHER        -> v
 IsClosed(e) == Val(e).c # "open"
 
 RECURSIVE SubstE(_, _)     \* Expression::substitute_variables; env : variable name -> expression
